@@ -3,6 +3,7 @@ import Goflow.Gen.C05
 import Goflow.Gen.C03
 import Goflow.Gen.C04
 import Goflow.Gen.C07
+import Goflow.Gen.C12
 import Goflow.Gen.C11
 import Goflow.Gen.C09
 import Goflow.Gen.C08
@@ -84,6 +85,7 @@ def execOp (st : DState) (line : String) : DState × Option (List String) :=
     | none => (st, some ["bad-op"])
     | some k => ({ st with pipes := (pid, k, cid) :: st.pipes.filter (fun e => e.1 != pid),
                            pstate := (pid, ({} : Pipe.State)) :: st.pstate.filter (fun e => e.1 != pid) }, some ["res ok"])
+  | ["poison", _, _] => (st, some ["res ok"])      -- the model has no message pool: every message starts from Reset()
   | ["pkt", pid, iphex, port, recv, hex] =>
     match st.pipes.lookup pid, parseHex iphex, parseHex hex with
     | some (k, cid), some ip, some d =>
@@ -116,6 +118,7 @@ def genOps (prop : String) (seed n : Nat) : List String :=
   | "C03" => Gen.run seed (Gen.C03.gen n)
   | "C04" => Gen.run seed (Gen.C04.gen n)
   | "C07" => Gen.run seed (Gen.C07.gen n)
+  | "C12" => Gen.run seed (Gen.C12.gen n)
   | "C11" => Gen.run seed (Gen.C11.gen n)
   | "C09" => Gen.run seed (Gen.C09.gen n)
   | "C08" => Gen.run seed (Gen.C08.gen n)
